@@ -43,6 +43,12 @@ static struct nv_section nv_futvec_move(struct nv_section* src)               /*
 { struct nv_section t = *src; src->size = 0; src->reserved = 0; return t; }
 static void nv_futvec_move_assign(struct nv_section* dst, struct nv_section* src)  /* v = std::move(w) */
 { struct nv_section t = *src; src->size = 0; src->reserved = 0; *dst = t; }
+static struct nv_section nv_futvec_range(struct nv_fit b, struct nv_fit e)     /* vector(first, last): COPIES of the futures in [first, last) (shared states) */
+{
+  __CPROVER_assert(b.v == e.v && b.i <= e.i && e.i <= b.v->size, "vector(first, last): a valid range of one vector");
+  struct nv_section t; t.first_id = b.v->first_id + b.i; t.size = e.i - b.i; t.reserved = t.size; return t;
+}
+static void nv_futvec_copy_assign(struct nv_section* dst, const struct nv_section* src) { *dst = *src; }   /* v = w: copies share the states */
 static void nv_futvec_clear(struct nv_section* v) { v->size = 0; }           /* clear(): destroys the futures WITHOUT waiting */
 static _Bool nv_futvec_empty(const struct nv_section* v) { return v->size == 0; }
 
